@@ -248,6 +248,9 @@ class REPEX_state:
             self.swap(traj_idx, ens)
             self.lock(ens)
             trajs.append(self._trajs[ens])
+        # the re-issued job is in flight again: record it, like pick() does,
+        # so that the next restart file lists it.
+        self.locked.append((list(enss), [str(i) for i in trajs0]))
         if self.printing():
             self.print_pick(tuple(enss), tuple(trajs0), self.cworker)
         picked = {}
